@@ -99,7 +99,12 @@ def step (st : St) (toks : List String) : Option (St × String × String) :=
       let rec_ ← parsePreds (← kv rest "preds")
       let roots ← parseNats (← kv rest "roots")
       -- model: the loop replayed on the predecessor lists exactly as the implementation saw them
-      let predsF : Node → List Node := fun v => lookupD rec_ v []
+      -- (a node the implementation never asked about gets its ground-truth predecessors:
+      -- a correct run never asks the model about such a node either)
+      let predsF : Node → List Node := fun v =>
+        match rec_.find? (·.1 == v) with
+        | some p => p.2
+        | Option.none => truthPreds st f v
       let fuel := 4 * (st.nodes.length + 1) * (st.nodes.length + 1) + 10
       let m := match findRoots predsF depth fuel n0 with
         | some rs => if sameSet rs roots then "ok" else "DIFF(model=" ++ showSet rs ++ ")"
